@@ -79,7 +79,6 @@ psTls13Psk_t *tls13NewPsk(const unsigned char *key,
     if (params != NULL)
     {
         psk->params = psMalloc(keys->pool, sizeof(psTls13SessionParams_t));
-        Memset(psk->params, 0x0, sizeof(psTls13SessionParams_t));
         if (psk->params == NULL)
         {
             psFree(psk->pskKey, keys->pool);
